@@ -113,12 +113,12 @@ def run(ctx):
     for i in sorted(sba.live):
         for s in SS.blocks[i]["stmts"]:
             if s["s"] == "assign" and s["rv"]["k"] == "agg" and s["rv"].get("agg") == "array" and len(s["rv"]["ops"]) == 6:
-                arr = (i, s["rv"]["ops"])
+                arr = (i, s["rv"]["ops"], s["place"]["l"])
     if arr is None:
         # navigational: the argv vector is built in another shape (pushes, a helper): cannot decide R13.3
         raise __import__("facts").AnchorError("six-element argv literal not found in %s" % SS.key)
     if ctx.ob("R13.3", "%s|argv-literal" % SS.key, arr is not None, where=SS.span, detail="six-element argv literal located"):
-        bb, ops = arr
+        bb, ops, _ = arr
         L = [op_local(o) for o in ops]
         c0 = _str_origin(SS, L[0])
         c1 = _str_origin(SS, L[1])
@@ -145,15 +145,22 @@ def run(ctx):
         cl = fcs[0]
         cba = BA.of(cl)
         ex = cba.calls(r"nix::unistd::execvp")
-        cd = cba.calls(r"std::env::set_current_dir")
-        emp = cba.switches_on_call(r"std::ffi::os_str::OsStr::is_empty")
+        # the captured DoFile: the closure variable(s) bound, at the construction site in start_self, to a
+        # local of type DoFile (whatever the variable is called, however many reborrows lie in between)
+        df_up = common.upvars_bound_to(SS, cl.key, lambda l: re.fullmatch(r"(&(mut )?)*paths::DoFile", SS.locals[l]) is not None)
+
+        def from_df(o, field):
+            return any(root[0] == "upvar" and root[1] in df_up and field in fields for (root, fields) in common.operand_origin_paths(cl, o))
+        cd_all = cba.calls(r"std::env::set_current_dir")
+        cd = [i for i in cd_all if from_df(cl.blocks[i]["term"]["args"][0], "paths::DoFile.do_dir")]
+        emp = [e for e in cba.switches_on_call(r"std::ffi::os_str::OsStr::is_empty") if from_df(cl.blocks[e[3]]["term"]["args"][0], "paths::DoFile.do_dir")]
         ok = False
         if cd and ex and emp:
-            sw, t_t, f_t, _ = emp[0]
-            ok = cba.edge_dominates((sw, f_t), cd[0]) and cba.path([f_t], ex, avoid=frozenset(cd), incl=True) is None
-            a = op_local(cl.blocks[cd[0]]["term"]["args"][0])
-            ok = ok and _reads_upvar_field(cl, a, "df", "paths::DoFile.do_dir")
+            ok = any(all(cba.edge_dominates((sw, f_t), c) for c in cd) and cba.path([f_t], ex, avoid=frozenset(cd), incl=True) is None
+                     and all(cba.dominates(sw, e) for e in ex) for (sw, t_t, f_t, _) in emp)
         ctx.ob("R13.4", "%s|chdir(do_dir)-before-exec" % cl.key, ok, where=ctx.where(cl, cd[0]) if cd else cl.span, detail="set_current_dir(df.do_dir) on the non-empty side precedes execvp")
+        if not cd:
+            cd = cd_all
         # a failed chdir aborts the child
         if cd:
             errsw = [sw for (sw, t_t, f_t, cbb) in cba.switches_on_call(r"core::result::Result::is_err") if cba.dominates(cd[0], sw)]
@@ -173,7 +180,10 @@ def run(ctx):
         # execvp's argv derives from the captured argv
         if ex:
             a = op_local(cl.blocks[ex[0]]["term"]["args"][1])
-            tv = taint(cl, src_place=lambda p: (upvar_index(p) or (None, None))[1] == "argv", mode="derived")
+            # the captured argv: the closure variable bound to a start_self local derived from the argv literal
+            argv_t = taint(SS, seeds={arr[2]}, mode="derived") if arr is not None else set()
+            argv_up = common.upvars_bound_to(SS, cl.key, lambda l: l in argv_t)
+            tv = taint(cl, src_place=lambda p: (upvar_index(p) or (None, None))[0] in argv_up, mode="derived")
             ctx.ob("R13.4", "%s|exec-argv-is-built-argv" % cl.key, a in tv, where=ctx.where(cl, ex[0]), detail="execvp receives the argv built in start_self")
 
 
@@ -193,20 +203,3 @@ def _str_origin(body, l):
                     if s is not None:
                         return s
     return None
-
-
-def _reads_upvar_field(cl, l, upvar, field):
-    ba = BA.of(cl)
-    sl, org, _ = backward_direct(cl, l, depth=60)
-    for x in sl:
-        for d in ba.defs.get(x, []):
-            ps = []
-            if d[0] == "stmt":
-                ps = __import__("core").rvalue_places(d[3])
-            elif d[0] == "call":
-                ps = [op_place(a) for a in d[2]["args"] if op_place(a)]
-            for p in ps:
-                u = upvar_index(p)
-                if u and u[1] == upvar and field in place_fields(p):
-                    return True
-    return False
